@@ -244,11 +244,42 @@ def c01(tier, replay):
     return _run("C01", tier, ["enc"], replay, ASSUME_COMMON, RULE, extra_leg=[_trace_leg, _decode_trace_leg])
 
 
+def _large_array_probe(rep):
+    """C02 is claimed for every value; the specification's arrays are short.
+    One fixed scenario at the Python decoder's element guard (65536)."""
+    import shutil
+    import tempfile
+    from . import pyleg as P
+    work = tempfile.mkdtemp(prefix="vfbig-", dir=scratch_dir("py"))
+    try:
+        mod, _ = P.compile_python("struct L { u8 x<>; u8 t; };\n", work, "big")
+        for n in (65536, 65537):
+            m = mod.L()
+            m.x[:] = [n % 251] * n
+            m.t = 7
+            for order in ("<", ">"):
+                data = m.encode(order)
+                try:
+                    d = mod.L()
+                    used = d.decode(data, order)
+                    ok = used == len(data) and len(d.x) == n and d.t == 7 and d.encode(order) == data
+                    err = "decoded value differs"
+                except Exception as e:
+                    ok, err = False, P.exc_text(e)
+                rep.count(1)
+                if not ok:
+                    f = {"check": "dec", "large_array": n, "what": "struct L { u8 x<>; u8 t; } with %d elements encodes to %d "
+                         "bytes, which decode(%r) does not give back: %s" % (n, len(data), order, err)}
+                    rep.violation(f, shadows.match("C02", f))
+    finally:
+        shutil.rmtree(work, ignore_errors=True)
+
+
 def c02(tier, replay):
     guard = wire.vacuity_guard()
     return _run("C02", tier, ["dec"], replay, ASSUME_COMMON + [
         "round trip claimed only for vectors with GreedyTailAligned (spec operator)"], RULE,
-        extra_leg=_decode_trace_leg)
+        extra_leg=[_decode_trace_leg, lambda rep, tier, pid: _large_array_probe(rep)])
 
 
 def py_random_leg(rep, checks, tier, groups):
